@@ -129,3 +129,121 @@ Definition fix_distinfo_line (texts : list str) (v : verdict) : list str :=
   | _ => texts
   end.
 End PatchSum.
+
+(* ---- the CVS gate in front of checkPatchSha1 --------------------------------
+   util.go isCommitted, pkglint.go Pkglint.loadCvsEntries (CVS/Entries and
+   CVS/Entries.Log of the directory of the file), distinfo.go
+   CheckLinesDistinfo (distinfoIsCommitted) and checkUncommittedPatch.
+   The map[RelPath]CvsEntry is modelled by the list of its keys (only the key
+   is ever looked at by isCommitted); a nil map is None.  The one-slot memo
+   (cvsEntriesDir / cvsEntries) is not modelled: it returns what the same call
+   returned before. *)
+
+Definition slash : N := 47.
+
+(* strings.Split(text, "/") *)
+Fixpoint split_on_acc (sep : N) (cur s : str) : list str :=
+  match s with
+  | [] => [cur]
+  | c :: t => if c =? sep then cur :: split_on_acc sep [] t
+              else split_on_acc sep (cur ++ [c]) t
+  end.
+Definition split_slash (s : str) : list str := split_on_acc slash [] s.
+
+(* the closure handle(line, add, text) of loadCvsEntries *)
+Definition cvs_handle (entries : list str) (add : bool) (text : str) : list str :=
+  if negb (has_prefix [slash] text) then entries
+  else
+    let fields := split_slash text in
+    if negb (Nat.eqb (length fields) 6) then entries          (* line.Errorf("Invalid line: ...") *)
+    else
+      let key := nth 1 fields [] in                            (* fields[1]; len(fields) = 6 *)
+      if add then key :: entries                               (* entries[key] = CvsEntry{...} *)
+      else filter (fun k => negb (str_eqb k key)) entries.     (* delete(entries, key) *)
+
+(* one line of CVS/Entries.Log: "A " adds, "R " removes, anything else is skipped *)
+Definition cvs_log_line (entries : list str) (text : str) : list str :=
+  if has_prefix [65; 32] text then cvs_handle entries true (skipn 2 text)
+  else if has_prefix [82; 32] text then cvs_handle entries false (skipn 2 text)
+  else entries.
+
+(* the CVS administrative files of one directory: the bytes of CVS/Entries and
+   of CVS/Entries.Log (None = the file cannot be read) *)
+Record cvs_dir : Type := mk_cvs_dir { cvs_entries : option str; cvs_entries_log : option str }.
+
+(* Load(file, 0).Lines[i].Text *)
+Definition load_texts (raw_text : str) : res (list str) :=
+  match convert_to_logical_lines raw_text false with
+  | Ok (lines, _) => Ok (map text lines)
+  | Panic => Panic
+  | OutOfFuel => OutOfFuel
+  end.
+
+(* loadCvsEntries(filename) for a file in that directory; None = the nil map.
+   Entries.Log is only read when CVS/Entries could be read. *)
+Definition load_cvs_entries (d : cvs_dir) : res (option (list str)) :=
+  match cvs_entries d with
+  | None => Ok None
+  | Some raw =>
+    match load_texts raw with
+    | Ok texts =>
+      let entries := fold_left (fun es t => cvs_handle es true t) texts [] in
+      match cvs_entries_log d with
+      | None => Ok (Some entries)
+      | Some log_raw =>
+        match load_texts log_raw with
+        | Ok log_texts => Ok (Some (fold_left cvs_log_line log_texts entries))
+        | Panic => Panic
+        | OutOfFuel => OutOfFuel
+        end
+      end
+    | Panic => Panic
+    | OutOfFuel => OutOfFuel
+    end
+  end.
+
+(* isCommitted(filename): `_, found := entries[filename.Base()]` *)
+Definition is_committed (d : cvs_dir) (base : str) : res bool :=
+  match load_cvs_entries d with
+  | Ok None => Ok false
+  | Ok (Some entries) => Ok (existsb (str_eqb base) entries)
+  | Panic => Panic
+  | OutOfFuel => OutOfFuel
+  end.
+
+Definition distinfo_name : str := [100; 105; 115; 116; 105; 110; 102; 111].   (* "distinfo" *)
+Definition sha1_name : str := [83; 72; 65; 49].                                 (* "SHA1" *)
+
+Section CvsGate.
+Variable H : str -> str.
+
+(* checkUncommittedPatch(info) with ck.distinfoIsCommitted given: whether the
+   warning "... is registered in distinfo but not added to CVS." is emitted, and
+   the verdict of checkPatchSha1 (None when the algorithm is not SHA1).
+   isCommitted(patch) is only evaluated when distinfoIsCommitted (&&). *)
+Definition check_uncommitted_patch (distinfo_is_committed : bool) (patch_cvs : cvs_dir)
+    (patch_base alg : str) (patch : option str) (hash : str) : res (bool * option verdict) :=
+  let warned :=
+    if distinfo_is_committed then
+      match is_committed patch_cvs patch_base with
+      | Ok c => Ok (negb c)
+      | Panic => Panic
+      | OutOfFuel => OutOfFuel
+      end
+    else Ok false in
+  match warned with
+  | Ok w => Ok (w, if str_eqb alg sha1_name then Some (check_patch_sha1 H patch hash) else None)
+  | Panic => Panic
+  | OutOfFuel => OutOfFuel
+  end.
+
+(* CheckLinesDistinfo -> check -> checkUncommittedPatch for one hash line of an
+   existing patch: distinfoIsCommitted := isCommitted(<pkgdir>/distinfo) first *)
+Definition check_entry_cvs (pkg_cvs patch_cvs : cvs_dir)
+    (patch_base alg : str) (patch : option str) (hash : str) : res (bool * option verdict) :=
+  match is_committed pkg_cvs distinfo_name with
+  | Ok dc => check_uncommitted_patch dc patch_cvs patch_base alg patch hash
+  | Panic => Panic
+  | OutOfFuel => OutOfFuel
+  end.
+End CvsGate.
